@@ -445,6 +445,8 @@ class Tt4Card(SimBase):
         self.executed = []             # APDUs executed (list of byte lists)
         self.responses = []            # their responses
         self.blocks_seen = []          # lengths of frames received while activated
+        self.script = None             # responses of the proprietary test applet
+        self.script_seen = []
         self.base = {}                 # flat address space for write logs
         pos = 0
         for fid in sorted(files):
@@ -548,6 +550,14 @@ class Tt4Card(SimBase):
         return list(data) + [sw >> 8, sw & 0xFF]
 
     def _apdu(self, a):
+        if self.script is not None and len(a) >= 1 and a[0] == 0x80:
+            # test applet: the k-th proprietary APDU is answered with the
+            # k-th scripted response; the command bytes are recorded
+            k = len(self.script_seen)
+            self.script_seen.append(list(a))
+            if k < len(self.script):
+                return list(self.script[k]) + [0x90, 0x00]
+            return self._sw(0x6F00)
         if len(a) < 4 or a[0] != 0x00:
             return self._sw(0x6E00)
         ins, p1, p2 = a[1], a[2], a[3]
